@@ -3,14 +3,15 @@ CONSTANTS
   Miner = {"m1", "m2", "m3"}
   SelfMiner = "m1"
   Thr = 2
-  Cap = 2
+  Cap = 1
   LeakChoices = {FALSE}
-  CapDecrChoices = {FALSE}
+  CapDecrChoices = {TRUE}
+  SatChoices = {TRUE}
   AtomicSetPhase = TRUE
   Proc = {"p1", "p2", "p3"}
   NoProc = "nobody"
   NoOp <- MCNoOp
-  OpSet <- TocOps
+  OpSet <- MutexOpsSmall
   Budget <- Budget211
 INVARIANTS TypeOK C37_ShareCap C37_NoDeadlock
 PROPERTIES C37_ShareOnce C37_FinalizedSticky C37_PhaseMonotone C37_TimeoutMonotone
